@@ -230,7 +230,7 @@ def work(item):
     if bits == 0 and style == "array":
         from sym_metanet.engines.numpy import Engine as NE
 
-        for vt in ("rand", "empty", np.float64(0.5)):
+        for vt in ("rand", "empty", np.float64(0.5), 30):  # 30: an integer fill value gives integer-dtype variables
             ex["concrete_runs"] += 1
             try:
                 P = numrun.float_params(topo, numrun.sample_env(topo, rng))
@@ -245,6 +245,20 @@ def work(item):
                             acc.exec_violation(PID, topo, f"numpy-own-vars[{vt}]", style, f"shape of next {k}_{el.name} differs", flags)
             except Exception as e:  # noqa
                 acc.exec_violation(PID, topo, f"numpy-own-vars[{vt}]", style, f"step with the engine's own variables raised {type(e).__name__}: {e}", flags)
+        # integer-dtype user arrays holding whole numbers (plain execution: dtype is outside the symbolic model)
+        envi = {k: (float(round(v)) if (k.startswith("rho_") or k.startswith("v_")) else v) for k, v in numrun.sample_env(topo, rng).items()}
+        ex["concrete_runs"] += 1
+        resi, exci = numrun.numpy_float(topo, envi, style, flags, int_states=True)
+        resf, excf = numrun.numpy_float(topo, envi, style, flags)
+        if exci is not None and excf is None:
+            acc.exec_violation(PID, topo, "numpy[int-dtype arrays]", style, f"step with integer-dtype state arrays raised {type(exci).__name__}: {str(exci)[:160]}", flags, {"env": envi})
+        elif exci is None and excf is None:
+            for key in resf:
+                if any(not numrun.close(x, y, 1e-9, 1e-9) for x, y in zip(resf[key], resi[key])):
+                    acc.d["violations"].append({"key": f"intdtype:{topo.name}:{key}", "group": f"intdtype:{topo.name}",
+                                                "what": f"{topo.describe()} | NumPy step with integer-dtype state arrays gives {key} = {resi[key]}, with the same whole numbers as float arrays {resf[key]}",
+                                                "replay": {"property": PID, "kind": "exec", "topo": topo.to_json(), "style": style, "encoding": "numpy[int]", "msg": "int dtype differs", "flags": flags, "env": envi}})
+                    break
         for mode, env in boundary_envs(topo, rng):
             if not env_in_domain(D, env):
                 continue
